@@ -37,7 +37,7 @@ MutateB(c) ==
     ELSE [ok |-> TRUE,
           owner |-> "jc1", uidlabel |-> "jc1",                       \* always the JobConfig's, whatever the submitter sent
           template |-> "jc1",                                        \* the JobConfig's template, a submitted one is overwritten
-          policy |-> IF c.policy = "" THEN "Forbid" ELSE c.policy,  \* the JobConfig's policy only when none was given
+          policy |-> IF c.policy \in {"", "sa"} THEN "Forbid" ELSE c.policy,  \* the JobConfig's policy only when none was given ("sa": a startPolicy with a startAfter only)
           opta |-> IF c.subst THEN "EXP" ELSE IF c.optval THEN "VAL" ELSE "DEF",
           jcname |-> IF c.substctx THEN "MINE" ELSE "jc1",           \* jobconfig.name context variable, explicit value wins
           cfgnamecleared |-> TRUE,
